@@ -56,7 +56,7 @@ def main():
         if ok and do_tests:
             t = time.time()
             subprocess.run(f"cd {wt} && /venv/bin/python -m pytest -q -p no:cacheprovider --timeout=900 --continue-on-collection-errors "
-                           f"--junitxml={out}/junit.xml -n 5 tests > {out}/pytest.log 2>&1", shell=True, env=env, timeout=3600)
+                           f"--junitxml={out}/junit.xml -n 3 tests > {out}/pytest.log 2>&1", shell=True, env=env, timeout=3600)
             cb = sh(f"python3 {V}/tools/compare_baseline.py {out}/junit.xml")
             rec["tests"] = cb.stdout.strip().splitlines()[0] if cb.stdout else "no output"
             rec["tests_ok"] = cb.returncode == 0
